@@ -728,6 +728,7 @@ func c16(c *Ctx) {
 	n := c.N(80, 1500)
 	if c.Replay == "" {
 		c16CommitHook(c, r.Fork())
+		c16UnlockUncached(c, r.Fork())
 	}
 	var wg sync.WaitGroup
 	sem := make(chan struct{}, 10)
